@@ -1,2 +1,157 @@
-/- Model driver for C11 (line protocol). Stub until the property's model lands. -/
-def main : IO Unit := pure ()
+/-
+  Model driver for C11 (line protocol, see harness/c11_main.c). Imports Model only.
+  Reads the same op lines as the C harness and prints the comparable part of its answers
+  (everything before " # ").
+-/
+import XzVerif.Model.Proto
+import XzVerif.Model.LzmaCode
+open XzVerif XzVerif.Proto XzVerif.LzmaCode
+
+structure DState where
+  live : Bool := false
+  real : Bool := false
+  strm : Stream := Stream.init
+  hasMemconfig : Bool := false
+  hasProgress : Bool := false
+  memlimit : Nat := 5000
+
+def optStr : Option Nat → String
+  | none => "N"
+  | some n => toString n
+
+def bit (b : Bool) : String := if b then "1" else "0"
+
+def fmtNew (op : String) (ret : Nat) (s : Stream) : String :=
+  match s.internal with
+  | none => s!"{op} {ret} seq=- abe=- tin={s.totalIn} tout={s.totalOut} sup=-"
+  | some i => s!"{op} {ret} seq={i.sequence.code} abe={bit i.allowBufError} tin={s.totalIn} tout={s.totalOut} sup={i.supported % 32}"
+
+/-- Resolves a buffer spec against the current pointer/length (see the harness for the grammar). -/
+def applySpec (spec : String) (cur : Option Nat) (avail : Nat) : Option (Option Nat × Nat) :=
+  match spec.splitOn ":" with
+  | ["k"] => some (cur, avail)
+  | ["s", off, len] => do
+      let o ← off.toNat?
+      let l ← len.toNat?
+      pure (some o, l)
+  | ["n", len] => do
+      let l ← len.toNat?
+      pure (none, l)
+  | ["d", x] =>
+      if x.startsWith "+" then (x.drop 1).toString.toNat?.map fun v => (cur, avail + v)
+      else if x.startsWith "-" then (x.drop 1).toString.toNat?.map fun v => (cur, avail - v)
+      else none
+  | _ => none
+
+def applyReserved (spec : String) : Option Reserved :=
+  if spec == "-" then some {} else
+  match spec.splitOn ":" with
+  | [idx, v] => do
+      let i ← idx.toNat?
+      let x ← v.toNat?
+      match i with
+      | 0 => pure { ptr1 := x }
+      | 1 => pure { ptr2 := x }
+      | 2 => pure { ptr3 := x }
+      | 3 => pure { ptr4 := x }
+      | 4 => pure { int2 := x }
+      | 5 => pure { int3 := x }
+      | 6 => pure { int4 := x }
+      | 7 => pure { enum1 := x }
+      | 8 => pure { enum2 := x }
+      | _ => none
+  | _ => none
+
+def applyTotals (spec : String) : Option (Option (Nat × Nat)) :=
+  if spec == "-" then some none else
+  match spec.splitOn ":" with
+  | [a, b] => do
+      let x ← a.toNat?
+      let y ← b.toNat?
+      pure (some (x, y))
+  | _ => none
+
+/-- The stub coder of the harness: replays (c, p, r) clamped to the space it is given. -/
+def stubCode (c p r : Nat) (a : InnerArgs) : Resp := ⟨min c a.inSize, min p a.outSize, r⟩
+
+def fmtCall (r : Result) : String :=
+  let s := r.strm
+  let tail := match s.internal with
+    | none => " seq=- abe=- sav=-"
+    | some i =>
+      let sq := i.sequence.code
+      let sav := if 1 ≤ sq ∧ sq ≤ 4 then toString i.availIn else "-"
+      s!" seq={sq} abe={bit i.allowBufError} sav={sav}"
+  let args := match r.called with
+    | none => " args=-"
+    | some (a, _) => s!" args={optStr a.inPtr},{a.inSize},{optStr a.outPtr},{a.outSize},{a.action},0,0"
+  s!"{r.ret} nin={optStr s.nextIn} ain={s.availIn} tin={s.totalIn} nout={optStr s.nextOut} aout={s.availOut} tout={s.totalOut}" ++ tail ++ args
+
+def stubMemconfig (limit : Nat) : MemConfig := fun newLimit =>
+  if newLimit != 0 && newLimit < 1234 then (LZMA_MEMLIMIT_ERROR, 1234, limit) else (LZMA_OK, 1234, limit)
+
+def step (st : DState) (ws : List String) : DState × String :=
+  match ws with
+  | [op, "stub", mask, flags] =>
+    if op != "new" && op != "reinit" then (st, "bad-op") else
+    if op == "reinit" && !st.live then (st, "bad-op reinit") else
+    match mask.toNat?, flags.toNat? with
+    | some m, some f =>
+      let base := if op == "new" then Stream.init else st.strm
+      let s := installCoder base (m % 32)
+      ({ live := true, real := false, strm := s, hasMemconfig := f % 2 == 1, hasProgress := (f / 2) % 2 == 1, memlimit := 5000 },
+       fmtNew op LZMA_OK s)
+    | _, _ => (st, "bad-op new")
+  | ["new", "uninit"] =>
+    ({ live := true, strm := Stream.init }, fmtNew "new" LZMA_OK Stream.init)
+  | ["new", "nocode", mask] =>
+    match mask.toNat? with
+    | some m =>
+      let s0 := lzmaStrmInit Stream.init
+      let s := { s0 with internal := s0.internal.map fun i => { i with supported := m % 32 } }
+      ({ live := true, strm := s }, fmtNew "new" LZMA_OK s)
+    | none => (st, "bad-op new")
+  | ["new", "real", api, _, _, _, _, _] =>
+    match documentedSupported api with
+    | some m =>
+      let s := installCoder Stream.init m
+      ({ live := true, real := true, strm := s }, fmtNew "new" LZMA_OK s)
+    | none => (st, "bad-op real")
+  | ["end"] => ({ st with strm := lzmaEnd st.strm }, "end")
+  | ["progress"] =>
+    if !st.live || st.strm.internal.isNone then (st, "bad-op progress") else
+    let (a, b) := lzmaGetProgress st.strm (if st.hasProgress then some (777, 888) else none)
+    (st, s!"progress {a} {b}")
+  | ["memusage"] =>
+    if !st.live then (st, "bad-op") else
+    if st.real then (st, "memusage") else
+    (st, s!"memusage {lzmaMemusage st.strm (if st.hasMemconfig then some (stubMemconfig st.memlimit) else none)}")
+  | ["memlimit_get"] =>
+    if !st.live then (st, "bad-op") else
+    if st.real then (st, "memlimit_get") else
+    (st, s!"memlimit_get {lzmaMemlimitGet st.strm (if st.hasMemconfig then some (stubMemconfig st.memlimit) else none)}")
+  | ["memlimit_set", n] =>
+    if !st.live then (st, "bad-op") else
+    if st.real then (st, "memlimit_set") else
+    match n.toNat? with
+    | some v =>
+      let (ret, passed) := lzmaMemlimitSet st.strm (if st.hasMemconfig then some (stubMemconfig st.memlimit) else none) v
+      let st' := match passed with
+        | some l => if ret = LZMA_OK then { st with memlimit := l } else st
+        | none => st
+      (st', s!"memlimit_set {ret} {match passed with | some l => toString l | none => "-"}")
+    | none => (st, "bad-op")
+  | ["call", action, inSpec, outSpec, resv, tot, c, p, r] =>
+    if !st.live then (st, "bad-op call") else
+    match action.toNat?, applySpec inSpec st.strm.nextIn st.strm.availIn,
+          applySpec outSpec st.strm.nextOut st.strm.availOut, applyReserved resv, applyTotals tot,
+          c.toNat?, p.toNat?, r.toNat? with
+    | some a, some (ni, ai), some (no, ao), some rs, some t, some c, some p, some r =>
+      let call : Call := { action := a, nextIn := ni, availIn := ai, nextOut := no, availOut := ao,
+                           reserved := rs, totals := t, code := stubCode c p r }
+      let res := LzmaCode.step st.strm call
+      ({ st with strm := res.strm }, fmtCall res)
+    | _, _, _, _, _, _, _, _ => (st, "bad-op spec")
+  | _ => (st, "bad-op")
+
+def main : IO Unit := runLoop step {}
